@@ -524,7 +524,7 @@ impl<'a> Unparser<'a> {
             } else {
                 " for "
             })?;
-            self.unparse_expr(&comp.target, precedence::TUPLE)?;
+            self.unparse_comp_target(&comp.target)?;
             self.p(" in ")?;
             self.unparse_expr(&comp.iter, precedence::TEST + 1)?;
             for cond in &comp.ifs {
@@ -533,6 +533,23 @@ impl<'a> Unparser<'a> {
             }
         }
         Ok(())
+    }
+
+    /// The target of a comprehension clause is read as a comma list of bitwise-or level expressions
+    /// (or starred ones): a tuple stays bare, and a conditional, lambda, `or`/`and`/`not`, comparison
+    /// or named expression needs its parentheses, both alone and as an element of the bare tuple.
+    fn unparse_comp_target<U>(&mut self, target: &Expr<U>) -> fmt::Result {
+        match target {
+            Expr::Tuple(crate::ExprTuple { elts, .. }) if !elts.is_empty() => {
+                let mut first = true;
+                for elt in elts {
+                    self.p_delim(&mut first, ", ")?;
+                    self.unparse_expr(elt, precedence::EXPR)?;
+                }
+                self.p_if(elts.len() == 1, ",")
+            }
+            _ => self.unparse_expr(target, precedence::EXPR),
+        }
     }
 
     fn unparse_fstring_body<U>(&mut self, values: &[Expr<U>], is_spec: bool) -> fmt::Result {
